@@ -27,7 +27,9 @@ Constructs == {
 Raisers == {<<"call", 1>>, <<"call3", 3>>, <<"div2", 2>>, <<"index2", 2>>, <<"attr2", 2>>, <<"name", 1>>,
             <<"raise2", 2>>, <<"assert", 1>>, <<"unpack2", 2>>,
             \* forms the compiler rewrites before compiling them
-            <<"aug3", 2>>, <<"cmp2", 2>>, <<"chainc2", 2>>, <<"kwcall2", 2>>, <<"cut2", 2>>}
+            <<"aug3", 2>>, <<"cmp2", 2>>, <<"chainc2", 2>>, <<"kwcall2", 2>>, <<"cut2", 2>>,
+            \* inline Python, whose nodes get their positions from the Hy form
+            <<"py-compr-if", 1>>, <<"py-compr-iter", 1>>, <<"py-lambda-default", 1>>, <<"pys-with", 1>>, <<"py-call", 1>>}
 
 VARIABLES chain, raiser
 vars == <<chain, raiser>>
